@@ -341,7 +341,7 @@ def install(R):
     R.declare_class("HRec", {"key": INT, "removed": BOOL})
     R.declare_class("Reader", {"header": REF("Header"), "records": LIST(REF("Record"))})
     R.declare_class("Writer", {"header": REF("Header"), "written": LIST(REF("Record"))})
-    R.declare_class("Record", {"fmt": SET(INT), "calls": LIST(REF("Call")), "frozen": BOOL})
+    R.declare_class("Record", {"fmt": SET(INT), "calls": LIST(REF("Call")), "frozen": BOOL, "chrom": INT})
     R.declare_class("Call", {"rec": REF("Record"), "gt": LIST(OPTINT), "gt_none": BOOL, "ph": SET(INT), "tag_none": SET(INT), "tag_int": DICT(INT, INT),
                               "tag_list": DICT(INT, INT)})
     R.iter_fields["Reader"] = "records"
